@@ -153,8 +153,8 @@ def eval_laws(case, resp=None):
     n = len(vals)
     r = impl.call(lambda: merge_concurrent_captions(cs))
     info["raised"] = isinstance(r, Err)
-    if not in_domain:
-        return None, None, info        # outside the statement: guard compared by the caller, counted
+    if not in_domain and (isinstance(r, Err) or not all(accepts)):
+        return None, None, info        # outside the statement and rejected: the guard is compared by the caller
     if isinstance(r, Err):
         return dict(base, kind="merge-raises", what="merge_concurrent_captions raised on captions built by Caption()"), None, info
     merged = r.v if isinstance(r.v, CaptionSet) else cs
@@ -219,10 +219,20 @@ def run_compose(ctx, res):
         v, d, info = eval_laws(case, resp)
         bump(dist, "laws_cases")
         if not info.get("in_domain", True):
-            bump(dist, "laws_out_of_domain_emptied_node_list(not judged)")
+            # outside the STATEMENT (emptied node lists): no violation possible, but the theorems about merge_accepts and
+            # the laws cover these inputs - any difference is a disagreement (model no longer mirrors the code)
+            bump(dist, "laws_out_of_domain_emptied_node_list(property not judged; model compared at alarm level)")
             agree = info["raised"] == (not info["accepted"])
-            bump(dist, "laws_guard_merge_accepts_agrees_with_the_code" if agree else "laws_guard_differs_from_the_code(info)")
+            bump(dist, "laws_guard_merge_accepts_agrees_with_the_code", int(agree))
+            if not agree:
+                d = d or {"what": "guard merge_accepts = %r but the code %s" % (info["accepted"], "raised" if info["raised"] else "did not raise"),
+                          "input": case}
             bump(dist, "laws_out_of_domain_rejected", int(info["raised"]))
+            if info["accepted"] and not info["raised"]:
+                bump(dist, "laws_out_of_domain_accepted_text_and_commutation_checked")
+            if v:
+                d = d or {"what": "outside the statement (emptied node lists): " + v["what"], "input": case}
+                v = None
         else:
             bump(dist, "laws_text_preserved_checked")
             bump(dist, "laws_merge_adjust_commute_checked", int(info.get("commute_checked", False)))
